@@ -205,7 +205,8 @@ func newGen(r *common.Rng, o GenOpts, tag string) *Gen {
 	}
 	if o.Collide && tag == "" {
 		// short names that also occur inside the package_info blocks of pkg_all.foi (type parameters, external types)
-		g.collide = []string{"Buffer", "Dict", "K", "V", "S", "Item", "Node"}
+		// ... and the names fc gives the type parameters it introduces itself (T0, T1, ...)
+		g.collide = []string{"Buffer", "Dict", "K", "V", "S", "Item", "Node", "T0", "T1", "T2"}
 		if !o.Generic {
 			g.collide = append(g.collide, "T", "U")
 		}
@@ -1279,8 +1280,50 @@ func (g *Gen) text() string {
 }
 
 // plantError damages a program text so that fc must reject it (reject profile).
+// several packages export the same short names (one of the types generic); the program then names them without
+// (or with the wrong) package. Rejected today; a lookup that falls back to "whatever package has it" would have
+// to choose among the candidates.
+const collidingPackages = `
+package_info zzring =
+  type ZzBuf
+  let ZzNew: ()->ZzBuf
+  let ZzLen: ZzBuf->int
+
+package_info zzbyte =
+  type ZzBuf
+  let ZzNew: ()->ZzBuf
+  let ZzLen: ZzBuf->string
+
+package_info zzline =
+  type ZzBuf
+  let ZzNew: ()->ZzBuf
+  let ZzLen: ZzBuf->int
+  let ZzOnlyLine: int->int
+
+package_info zzgap =
+  type ZzBuf<T>
+  let ZzNew<T>: ()->ZzBuf<T>
+  let ZzOnlyGap: string->string
+
+`
+
 func plantError(r *common.Rng, src string) (string, string) {
-	switch r.Intn(8) {
+	switch r.Intn(10) {
+	case 8:
+		use := []string{
+			"type ZzEd = {ZzName: string; ZzText: ZzBuf}\n\nlet zzBad (e:ZzEd) =\n  e.ZzText\n",
+			"let zzBad (b:ZzBuf) (name:string) =\n  name = \"scratch\"\n",
+			"let zzBad () =\n  ZzNew ()\n",
+			"let zzBad (b:zzring.ZzBuf) =\n  ZzLen b\n",
+		}[r.Intn(4)]
+		return src + collidingPackages + use, "unqualified-external"
+	case 9:
+		use := []string{
+			"let zzBad (a:int) =\n  zzring.ZzOnlyLine a\n",
+			"let zzBad (a:string) =\n  zzbyte.ZzOnlyGap a\n",
+			"let zzBad (b:zzother.ZzBuf) =\n  1\n",
+		}[r.Intn(3)]
+		return src + collidingPackages + use, "wrong-package-external"
 	case 5:
 		return src + "\npackage_info _ =\n  let ZzExt: int->\n", "bad-package-info"
 	case 6:
